@@ -27,6 +27,8 @@ func ZZ_C15_stat_clear_resets_every_field() {
 	zzvAssert("cleared-observers", s.Count() == 0 && s.Sum() == 0 && s.Min() == math.Inf(1) && s.Max() == math.Inf(-1))
 }
 
+func ZZ_C10_stat_clear_resets_every_field() { ZZ_C15_stat_clear_resets_every_field() }
+
 // C14/C10: Copy is field-for-field and independent
 func ZZ_C14_stat_copy_independent() {
 	s := zzArbitrary("s")
